@@ -437,7 +437,7 @@ func runOnce(c Case) (verdict pbt.Verdict, storeError bool) {
 				wg.Add(1)
 				go func() {
 					defer wg.Done()
-					for r := 0; r < 6; r++ {
+					for r := 0; r < 16; r++ {
 						s.GetPeers(torrent(st.T), 3*len(c.Peers)+1)
 					}
 				}()
